@@ -46,18 +46,31 @@ Section Sound2.
 Variable env : list Z.
 Notation val n := (getv env (fst n)).
 
-(* ---- assign r = { {k{a[wa-1]}}, a };   k = wr - wa > 0   (k = 0 is illegal Verilog: C03 finding) *)
-Theorem inl_signextend_sound r a : okn env a -> snd a < snd r -> snd a - 1 < 2 ^ 31 ->
-  forall l e, inl_signextend r a = [(l, e)] -> assign_value env l e = SignExtend_propagate (snd a) (snd r) (val a).
+(* ---- assign r = { {k{a[wa-1]}}, a };   k = wr - wa > 0;   the bit is written `a` when a is a scalar net;
+        `assign r = a;` when wr <= wa (nothing to replicate) *)
+Lemma bit_select_top a : okn env a -> snd a - 1 < 2 ^ 31 ->
+  rsize (bit_select a (snd a - 1)) = 1 /\ rsigned (bit_select a (snd a - 1)) = false /\
+  reval env 1 false (bit_select a (snd a - 1)) = vtrunc 1 (Z.land (Z.shiftr (val a) (snd a - 1)) 1).
 Proof.
-  intros [Hwa Hva] Hlt Hlit l e H; inversion H; subst; clear H.
+  intros [Hwa Hva] Hlit. unfold bit_select.
+  destruct ((snd a =? 1) && (snd a - 1 =? 0)) eqn:Hs.
+  - assert (Ha1 : snd a = 1) by lia. cbn [rid rsize rsigned reval extend]. rewrite Ha1. repeat split.
+    rewrite Ha1 in Hva. change (2 ^ 1) with 2 in Hva. cbn [Z.sub Z.pos_sub]. rewrite Z.shiftr_0_r.
+    assert (Hc : val a = 0 \/ val a = 1) by lia. destruct Hc as [-> | ->]; reflexivity.
+  - cbn [rsize rsigned reval]. repeat split.
+    fold (rself env (pynum (snd a - 1))). rewrite self_pynum by lia.
+    replace ((0 <=? snd a - 1) && (snd a - 1 <? snd a)) with true by lia. reflexivity.
+Qed.
+
+Lemma sext_core r a b : okn env a -> snd a < snd r ->
+  rsize b = 1 -> rsigned b = false -> reval env 1 false b = vtrunc 1 (Z.land (Z.shiftr (val a) (snd a - 1)) 1) ->
+  assign_value env (whole r) (RConcat (RRepl (snd r - snd a) b) (rid a)) = SignExtend_propagate (snd a) (snd r) (val a).
+Proof.
+  intros [Hwa Hva] Hlt Hsz Hsg Hb.
   set (wa := snd a) in *. set (wr := snd r) in *. set (v := val a) in *.
-  unfold assign_value. cbn [lwidth whole rsize rsigned rid fst snd]. fold wa wr.
+  unfold assign_value. cbn [lwidth whole rsize rsigned rid fst snd]. fold wa wr. rewrite Hsz.
   replace (Z.max wr ((wr - wa) * 1 + wa)) with wr by lia.
-  cbn [reval rsize rsigned rid]. fold wa wr.
-  (* the selected bit *)
-  fold (rself env (pynum (wa - 1))). rewrite self_pynum by lia.
-  replace ((0 <=? wa - 1) && (wa - 1 <? wa)) with true by lia.
+  cbn [reval rsize rsigned rid]. fold wa wr. rewrite Hsz, Hsg, Hb.
   fold v.
   set (hb := Z.land (Z.shiftr v (wa - 1)) 1).
   assert (Hhb : hb = Z.shiftr v (wa - 1) /\ 0 <= hb <= 1).
@@ -95,6 +108,18 @@ Proof.
     - rewrite Z.shiftl_mul_pow2 by lia. replace wr with ((wr - wa) + wa) at 2 by lia. rewrite Z.pow_add_r by lia. ring. }
   rewrite Hdis. rewrite put_trunc. rewrite !vtrunc_trunc by lia. rewrite trunc_idem by lia. f_equal.
   replace wr with ((wr - wa) + wa) at 2 by lia. rewrite Z.pow_add_r by lia. nia.
+Qed.
+
+Theorem inl_signextend_sound r a : okn env a -> 0 < snd r -> snd a - 1 < 2 ^ 31 ->
+  forall l e, inl_signextend r a = [(l, e)] -> assign_value env l e = SignExtend_propagate (snd a) (snd r) (val a).
+Proof.
+  intros Ha Hr Hlit l e H. unfold inl_signextend in H.
+  destruct (snd r <=? snd a) eqn:Hle; inversion H; subst; clear H.
+  - (* nothing to extend: the simulator's loop over range(wa, wr) is empty *)
+    rewrite (inl_buf_sound env r a Ha Hr _ _ eq_refl). unfold Buf_propagate, SignExtend_propagate. cbv zeta.
+    replace (seqZ (snd a) (snd r)) with (@nil Z); [reflexivity|].
+    unfold seqZ. replace (Z.to_nat (snd r - snd a)) with O by lia. reflexivity.
+  - destruct (bit_select_top a Ha Hlit) as (Hsz & Hsg & Hb). apply sext_core; auto. lia.
 Qed.
 End Sound2.
 
@@ -175,16 +200,21 @@ Proof.
 Qed.
 
 (* ---- assign r = {i0, i1, ...};  (both ConcatenateMSBF and ConcatenateLSBF: same emitter, same propagate) *)
-Theorem inl_concat_sound r ins : ins <> [] -> Forall (okn env) ins -> 0 < snd r ->
+Theorem inl_concat_sound r ins : Forall (okn env) ins -> 0 < snd r ->
   forall l e, inl_concat r ins = [(l, e)] ->
   assign_value env l e = ConcatenateMSBF_propagate (snd r) (map (fun n => (snd n, val n)) ins) /\
   assign_value env l e = ConcatenateLSBF_propagate (snd r) (map (fun n => (snd n, val n)) ins).
 Proof.
-  intros Hne Hall Hr l e H; inversion H; subst; clear H.
+  intros Hall Hr l e H; inversion H; subst; clear H.
   assert (Hm : assign_value env (whole r) (concat_of (map rid ins)) = trunc (snd r) (cval ins)).
-  { unfold assign_value. cbn [lwidth whole]. rewrite rsigned_concat, rsize_concat by exact Hne.
-    destruct ins as [|n0 t0]; [congruence|].
-    rewrite reval_concat_ctx by (auto; lia). apply vtrunc_trunc; lia. }
+  { destruct ins as [|n0 t0].
+    - (* no operand: the emitter prints `assign r = 0;` *)
+      unfold assign_value. cbn [map concat_of lwidth whole rsize rsigned reval cval fst snd].
+      change (vtrunc 32 0) with 0. unfold extend. change (to_signed 32 0) with 0. unfold vtrunc, trunc.
+      rewrite !Z.mod_0_l by (apply Z.pow_nonzero; lia). now rewrite Z.land_0_l.
+    - assert (Hne : n0 :: t0 <> []) by discriminate.
+      unfold assign_value. cbn [lwidth whole]. rewrite rsigned_concat, rsize_concat by exact Hne.
+      rewrite reval_concat_ctx by (auto; lia). apply vtrunc_trunc; lia. }
   rewrite Hm. unfold ConcatenateMSBF_propagate, ConcatenateLSBF_propagate. cbv zeta.
   rewrite !sim_concat_fold by exact Hall. rewrite Z.mul_0_l, Z.add_0_l. split; reflexivity.
 Qed.
@@ -435,7 +465,7 @@ Theorem inl_bits_sound a b k : okn env a -> 0 < snd b -> 0 <= k < snd a -> k < 2
   assign_value env (whole b) (RBit (fst a) (snd a) (RNum k)) = Wire_put (snd b) (Z.land (py_shr (val a) k) 1).
 Proof.
   intros Ha Hb Hk Hk2.
-  pose proof (inl_bit_sound env b a k Ha Hb Hk Hk2 (whole b) (RBit (fst a) (snd a) (pynum k)) eq_refl) as H.
+  pose proof (rbit_sound env b a k Ha Hb Hk Hk2) as H.
   unfold pynum in H. destruct (Z.ltb_spec k 0); [lia|]. rewrite H. reflexivity.
 Qed.
 
